@@ -120,6 +120,8 @@ def run(ctx):
     ctx.extra['exhaustive_bound'] = f'all histories of length <= {L} over {len(alphabet)} operations (2 indices), each followed by a fuse'
     # random, biased towards completing cliques
     for _ in range(ctx.budget(1500, 20000)):
+        if ctx.expired():
+            break
         n_idx = rng.randint(1, 5)
         ops = []
         base_pool = []
